@@ -194,3 +194,14 @@ Theorem C18_rfind_shift : forall h s pos o r, size h < npos -> o <= pos -> o <= 
   SV.rfind (dropN o h) s (pos - o) = r -> r <> npos -> SV.rfind h s pos = o + r.
 Proof. exact rfind_shift. Qed.
 Print Assumptions C18_rfind_shift.
+
+Theorem C18_backward_search_prefix : forall h s pos, size h < npos ->
+  (pos + size s <= size h -> SV.rfind h s pos = SV.rfind (window h 0 (pos + size s)) s pos) /\
+  (pos < size h -> SV.find_last_of h s pos = SV.find_last_of (window h 0 (pos + 1)) s pos /\
+                   SV.find_last_not_of h s pos = SV.find_last_not_of (window h 0 (pos + 1)) s pos).
+Proof.
+  exact (fun h s pos H => conj (rfind_prefix h s pos H)
+           (fun Hp => conj (find_last_of_prefix h s pos (N.lt_le_incl _ _ H) Hp)
+                           (find_last_not_of_prefix h s pos (N.lt_le_incl _ _ H) Hp))).
+Qed.
+Print Assumptions C18_backward_search_prefix.
